@@ -65,6 +65,14 @@ pub fn check(case: &Case, obs: &mut Obs) -> CheckResult {
       obs.label(format!("{entry}:rejected"));
       obs.label("rejected");
     }
+    Err(p) if p.file.starts_with("src/") || p.file.contains("/harness/src/") => {
+      // an `expect` of the harness's own constant fixtures (documents, credentials, keys the entry points are run
+      // against) fired: the fixture is no longer accepted by the library, nothing is known about the entry point
+      return Err(Viol::fixture(format!(
+        "harness fixture of entry point {entry} panicked at {}:{}: {}",
+        p.file, p.line, p.msg
+      )));
+    }
     Err(p) => {
       let sig = format!("panic:{}", p.sig());
       obs.fail(
